@@ -356,6 +356,7 @@ class H2Protocol:
         await self.has_data.set()
 
     async def _create_stream(self, request: h2.events.RequestReceived) -> None:
+        raw_path = b""  # A plain CONNECT request has no :path
         for name, value in request.headers:
             if name == b":method":
                 method = value.decode("ascii").upper()
